@@ -769,7 +769,8 @@ class Connection (EventMixin):
     log.info(str(self) + " " + str(m))
 
   def __init__ (self, sock):
-    self._previous_stats = []
+    # Parts of not yet complete stats replies: (xid, stats type) -> [parts]
+    self._previous_stats = {}
 
     self.ofnexus = _dummyOFNexus
     self.sock = sock
@@ -974,38 +975,27 @@ class Connection (EventMixin):
     return True
 
   def _incoming_stats_reply (self, ofp):
-    # This assumes that you don't receive multiple stats replies
-    # to different requests out of order/interspersed.
+    # A reply may come in several parts.  Parts are collected per request
+    # (same xid and stats type), so replies to different requests may be
+    # interspersed without getting mixed up or lost.
+    key = (ofp.xid, ofp.type)
     if not ofp.is_last_reply:
       if ofp.type not in [of.OFPST_FLOW, of.OFPST_TABLE,
                                 of.OFPST_PORT, of.OFPST_QUEUE]:
         log.error("Don't know how to aggregate stats message of type " +
                   str(ofp.type))
-        self._previous_stats = []
+        self._previous_stats.pop(key, None)
         return
+      self._previous_stats.setdefault(key, []).append(ofp)
+      return
 
-    if len(self._previous_stats) != 0:
-      if ((ofp.xid == self._previous_stats[0].xid) and
-          (ofp.type == self._previous_stats[0].type)):
-        self._previous_stats.append(ofp)
-      else:
-        log.error("Was expecting continued stats of type %i with xid %i, "
-                  "but got type %i with xid %i",
-                  self._previous_stats[0].type, self._previous_stats[0].xid,
-                  ofp.type, ofp.xid)
-        self._previous_stats = [ofp]
-    else:
-      self._previous_stats = [ofp]
-
-    if ofp.is_last_reply:
-      handler = statsHandlerMap.get(self._previous_stats[0].type, None)
-      s = self._previous_stats
-      self._previous_stats = []
-      if handler is None:
-        log.warn("No handler for stats of type " +
-                 str(self._previous_stats[0].type))
-        return
-      handler(self, s)
+    s = self._previous_stats.pop(key, [])
+    s.append(ofp)
+    handler = statsHandlerMap.get(ofp.type, None)
+    if handler is None:
+      log.warn("No handler for stats of type " + str(ofp.type))
+      return
+    handler(self, s)
 
   def __str__ (self):
     #return "[Con " + str(self.ID) + "/" + str(self.dpid) + "]"
